@@ -12,6 +12,36 @@ from vf import common
 
 
 def bfs(expand: Callable[[list], list], init_key: Any, max_depth: int, max_states: int = 0, deadline: float = 0.0) -> dict:
+    import multiprocessing
+    import os
+
+    global _EXPAND
+    _EXPAND = expand
+    procs = int(os.environ.get("VERIF_PROCS", "0") or 0) or min(16, os.cpu_count() or 1)
+    pool = multiprocessing.get_context("fork").Pool(procs) if procs > 1 else None  # one pool for the whole search
+    try:
+        return _bfs(pool, expand, init_key, max_depth, max_states, deadline)
+    finally:
+        if pool is not None:
+            pool.terminate()
+            pool.join()
+
+
+_EXPAND = None
+
+
+def _expand_chunk(ch):
+    import traceback
+
+    try:
+        return ("ok", [_EXPAND(h) for h in ch])
+    except common.HarnessError as e:
+        return ("harness", f"{e}\n{traceback.format_exc()}")
+    except BaseException as e:  # noqa
+        return ("harness", f"worker crashed: {e!r}\n{traceback.format_exc()}")
+
+
+def _bfs(pool, expand, init_key, max_depth, max_states, deadline) -> dict:
     seen = {init_key: []}
     frontier: list[list] = [[]]
     transitions = 0
@@ -23,9 +53,17 @@ def bfs(expand: Callable[[list], list], init_key: Any, max_depth: int, max_state
         if (max_states and len(seen) >= max_states) or (deadline and time.time() > deadline):
             capped = True
             break
-        nchunks = min(256, max(1, len(frontier) // 8))
+        nchunks = min(256, max(1, len(frontier) // 4))
         chunks = [frontier[i::nchunks] for i in range(nchunks) if frontier[i::nchunks]]
-        res = common.pmap(lambda ch: [expand(h) for h in ch], chunks)
+        if pool is None or len(frontier) < 4:
+            raw = [_expand_chunk(ch) for ch in chunks]
+        else:
+            raw = pool.map(_expand_chunk, chunks, chunksize=1)
+        res = []
+        for tag, val in raw:
+            if tag != "ok":
+                raise common.HarnessError(val)
+            res.append(val)
         nxt = []
         for ch, rs in zip(chunks, res):
             for hist, succ in zip(ch, rs):
